@@ -87,7 +87,13 @@ func (h *connIDManager) add(f *wire.NewConnectionIDFrame) error {
 	}
 	// If the NEW_CONNECTION_ID frame is reordered, such that its sequence number is smaller than the currently active
 	// connection ID or if it was already retired, send the RETIRE_CONNECTION_ID frame immediately.
-	if f.SequenceNumber < max(h.activeSequenceNumber, h.highestProbingID) || f.SequenceNumber < h.highestRetired {
+	// This doesn't apply to a retransmission of the frame that carried the active connection ID (it is still in use,
+	// even if a higher-numbered connection ID is used for path probing). It does apply to the connection ID that was
+	// most recently used for path probing: at this point it is not in pathProbing anymore, i.e. it was retired.
+	if f.SequenceNumber != h.activeSequenceNumber &&
+		(f.SequenceNumber < max(h.activeSequenceNumber, h.highestProbingID) ||
+			(h.highestProbingID != 0 && f.SequenceNumber == h.highestProbingID) ||
+			f.SequenceNumber < h.highestRetired) {
 		h.queueControlFrame(&wire.RetireConnectionIDFrame{
 			SequenceNumber: f.SequenceNumber,
 		})
